@@ -90,3 +90,16 @@ package bfe_http
 //@ func (WriteRequestError).CheckTargetError
 //@   props C07,C08
 //@   modifies nothing
+
+// ---- C23: a chunk's data must be followed by CR LF ----
+
+//@ func (*chunkedReader).Read
+//@   props C23
+//@   requires cr != nil
+//@   frame ReadFull keeps cr.n, cr.r
+//@   note reading the two terminator bytes is assumed not to change the chunk reader's own counters
+//@   modifies *
+//@   assume[the_body_is_read_through_a_well_formed_buffered_reader] at "cr.r.Read(b)" :: wfR(cr.r) && disjoint(b, cr.r.buf) && 0 <= cr.r.TotalRead && cr.r.TotalRead <= 4611686018427387904
+//@   note the underlying bfe_bufio.Reader is assumed well formed (C22 keeps it so), its buffer disjoint from the caller's, its counter below 2^62
+//@   ensures[the_sticky_error_is_returned] (result1 != nil) <==> (cr.err != nil)
+//@   ensures[a_finished_chunk_is_accepted_only_if_cr_lf_follows_its_data] result1 == nil && cr.n == 0 ==> cr.buf[0] == 13 && cr.buf[1] == 10
